@@ -194,13 +194,15 @@ def open_histories(ck: Check, tier: str) -> None:
 def run(tier: str) -> int:
     ck = Check('C19', tier, 'model_checking')
     ck.cov['rule'] = (
-        'cases = histories of (session, message) steps: every history of <= MaxLen steps over 9 message kinds x 3 sessions (4-byte / 2-byte AS / 4-byte AS with AIGP enabled), '
+        'cases = histories of (session, message) steps: every history of <= 3 steps (quick: a sample which keeps every decode / swap / decode history; thorough: all) over 9 message kinds x 3 sessions (4-byte / 2-byte AS / 4-byte AS with AIGP enabled), '
         'taken from the state dump of ExaUpdateHist after TLC checked HistoryFree on it; each history runs in one process on two real sessions; '
         'every step is compared by TLC with ExaUpdateIn!Outcome and with the same bytes decoded alone in a fresh interpreter, and every '
         'collection returned earlier is rendered again at the end; distinct = distinct histories; non-trivial = at least two steps'
     )
     ck.assumptions += ['Attribute.caching = True as application/server.py sets it by default; the two sessions share one interpreter as in the reactor']
-    maxlen = 3 if tier == 'quick' else 4
+    # both tiers take the histories of <= 3 steps (Swap steps included): quick a sample around every "decode, swap, decode" history,
+    # thorough all of them (with Swap in the model the dump of 4 steps is 700 000 histories: too many to replay)
+    maxlen = 3
     cfg = open(os.path.join(tlc.SPEC, 'MC_ExaUpdateHist.cfg')).read().replace('MaxLen = 3', f'MaxLen = {maxlen}')
     res, states = tlc.dump_states('MC_ExaUpdateHist', '', 'c19hist', ['hist'], cfg_text=cfg)
     ck.tlc(res, f'MC_ExaUpdateHist: all histories of <= {maxlen} steps; invariant HistoryFree (cache keyed on bytes AND session)')
@@ -218,7 +220,7 @@ def run(tier: str) -> int:
         raise tlc.TLCError('ExaUpdateHist keyed on the address of the session should violate HistoryFree (vacuity guard): ' + byaddr.out[-800:])
     hists = [[tuple(x) for x in st['hist']] for st in states if st['hist']]
     rnd = random.Random(seed())
-    limit = 3500 if tier == 'quick' else 45000
+    limit = 3500 if tier == 'quick' else 30000
     ck.cov['exhaustive'] = len(hists) <= limit
     if len(hists) > limit:
         # every history "decode, sessions swapped, decode" is kept; the others are sampled
